@@ -517,15 +517,22 @@ class Runner:
         used = None
         # ladder step: linear abstraction with zero-product axioms (can only conclude unsat)
         try:
-            from .absnl import abstract
+            from .absnl import abstract, Abstraction
+            A_ = P.__dict__.get("_abs")
+            if A_ is None:
+                A_ = P.__dict__["_abs"] = Abstraction()
+            if P.__dict__.get("_abs_off"):
+                raise OverflowError("abstraction disabled on this path")
             for tier in (0, 2):
                 if tier == 2 and not (P.order_conds or any(t > 0 for t, _ in P.defs)):
                     break
-                r, s, dt = _solve(abstract(P.constraints(tier) + [neg]), min(4000, self.budget.ob_timeouts[0]))
+                r, s, dt = _solve(abstract(P.constraints(tier) + [neg], A_), min(4000, self.budget.ob_timeouts[0]))
                 if r == "unsat":
                     verdict = "unsat"
                     used = "abs"
                     break
+        except OverflowError:
+            P.__dict__["_abs_off"] = True
         except Exception:
             pass
         for tier, to in zip((0, 1, 2), self.budget.ob_timeouts):
